@@ -220,7 +220,25 @@ def run(pid, tier):
     for (j, rc, o) in crashes:
         p = V.save_replay(pid, 'crash-%s.log' % os.path.basename(j[0]), o)
         vio_out.append(('driver aborted / sanitizer report (rc=%d) on %s' % (rc, j[0]), p))
+    # invalid code classes on a DTLS session (the DTLS driver of C19, judged by Trace_Gate's rule for it): class-7 codes are Reset or ignored there, too
+    import dtls as D
+    dcases = []
+    for i, code in enumerate((0xe1, 0xe2, 0xe3, 0xe4, 0xe5, 0xff)):
+        dcases.append((400000 + i, ['X id=%d cid=alice ckey=secretkey0123456 sk=alice:secretkey0123456 hint=srv acc=1 nq=1 inj=0 rel=0 idcb=1 drop= sni= warm= snik= dup= mute=0 sclose=0 obs=0 tk2=0 nonq=0 shold=0 bad7=%d'
+                                      % (400000 + i, code), 'E']))
+    dout = os.path.join(out, 'dtls7')
+    os.makedirs(dout, exist_ok=True)
+    ddrv = V.link('drv_dtls', ['drv_dtls.c', 'simnet.c'], V.SIM_WRAPS)
+    asan0 = os.environ.get('ASAN_OPTIONS')
+    os.environ['ASAN_OPTIONS'] = 'detect_leaks=0:abort_on_error=0:exitcode=99:allocator_may_return_null=1'     # GnuTLS global state
+    dvio, ndt, _k, _r = V.drive_and_validate(pid, ddrv, dcases, dout, 'Trace_Gate', xmx='2g', nfiles=3)
+    if asan0 is None:
+        os.environ.pop('ASAN_OPTIONS', None)
+    else:
+        os.environ['ASAN_OPTIONS'] = asan0
+    vio_out += [('DTLS session: ' + t, p_) for (t, p_) in dvio]
     V.write_evidence(pid, tier, 'model_checking', dict(
+        class7_codes_on_a_dtls_session=ndt,
         states=mcst['distinct'], transitions=mcst['generated'], traces_validated_against_impl=nreq,
         samples=[cases[0][1][:4], cases[-1][1][:4]], requests_judged=nreq, requests_with_several_allowed_outcomes=nmulti,
         tables=7, deferred_answers_judged=ndef, exhaustive=False,
